@@ -440,12 +440,23 @@ func (s *Store) Get(_ context.Context, key client.ObjectKey, obj client.Object, 
 		s.lastRead[k] = nil
 		return s.end(r, apierrors.NewNotFound(gr(k), key.Name))
 	}
+	if s.Faults[r.Idx] == "lost" {
+		// the response never reaches the caller
+		return s.end(r, nil)
+	}
 	s.lastRead[k] = deepCopyMap(m)
 	if err := s.fromMap(m, obj); err != nil {
 		return err
 	}
 	obj.GetObjectKind().SetGroupVersionKind(gvk)
 	return s.end(r, nil)
+}
+
+// ForgetRead drops the record of the last read of k (used by cache wrappers that hide the object).
+func (s *Store) ForgetRead(k storeKey) {
+	s.mu.Lock()
+	defer s.mu.Unlock()
+	s.lastRead[k] = nil
 }
 
 func (s *Store) List(_ context.Context, list client.ObjectList, opts ...client.ListOption) error {
